@@ -16,6 +16,7 @@ mod c10;
 mod c11;
 mod c13;
 mod c14;
+mod c15;
 mod c16;
 mod c17;
 mod rend;
@@ -124,6 +125,15 @@ fn main() {
         ("search", "C17") => {
             let mut s = util::Search::new();
             c17::search(&tier, seed, &mut s);
+            s.finish();
+        }
+        ("corr", "C15") => {
+            let mut c = util::Corr::new();
+            c15::corr(&tier, seed, &mut c);
+        }
+        ("search", "C15") => {
+            let mut s = util::Search::new();
+            c15::search(&tier, seed, &mut s);
             s.finish();
         }
         ("search", "C16") => {
